@@ -35,6 +35,8 @@ class Exec(ExprMixin, CallMixin, StmtMixin):
     sortedof_handlers = {}
     sortkey_handlers = {}
     delitem_handlers = {}
+    getattr_dyn_handlers = {}
+    hash_handlers = {}
     global_values = {}
     global_calls = {}
     type_aliases = {}
@@ -72,6 +74,8 @@ class Exec(ExprMixin, CallMixin, StmtMixin):
         st = State()
         cf = self.classes_fields()
         argnames = [a.arg for a in self.fn.args.args] + [a.arg for a in self.fn.args.kwonlyargs]
+        if self.fn.args.vararg is not None and self.fn.args.vararg.arg in con.params:
+            argnames.append(self.fn.args.vararg.arg)  # *args modelled as one opaque tuple value
         for n in con.params:
             if n not in argnames and not n.startswith("_ghost"):
                 raise Unsupported("contract parameter %s is not a parameter of %s" % (n, con.qualname), self.fn)
@@ -84,7 +88,14 @@ class Exec(ExprMixin, CallMixin, StmtMixin):
                 st.assume(f)
             if isinstance(ty, TObj):
                 self.param_objs.add(n)
-        if self.fn.args.vararg or self.fn.args.kwarg:
+        for n, ty in getattr(con, "free_vars", {}).items():
+            # variables a closure captures from its defining scope
+            st.env[n] = fresh(ty, n, cf)
+            for f in wf(st.env[n]):
+                st.assume(f)
+            if isinstance(ty, TObj):
+                self.param_objs.add(n)
+        if (self.fn.args.vararg and self.fn.args.vararg.arg not in con.params) or self.fn.args.kwarg:
             if not getattr(con, "ignore_varargs", False):
                 raise Unsupported("*args/**kwargs", self.fn)
         pre_env = dict(st.env)
